@@ -355,6 +355,12 @@ class SimRunner:
     """
     successors: Dict[SimRunner, TieredInterval]
     successors_to_wait_for: Dict[SimRunner, TieredInterval]
+    lazy_cutoffs: Dict[SimRunner, int]
+    """For each successor, the smallest cutoff of all data paths to it,
+    i.e. the number of tiers of this simulator's time that are not
+    reset on the way. (Only these tiers are compared when waiting for
+    the successor due to lazy stepping.)
+    """
     triggering_ancestors: Dict[SimRunner, TieredInterval]
     """An iterable of this sim's ancestors that can trigger a step of
     this simulator. The second component specifies the least amount of
@@ -457,6 +463,7 @@ class SimRunner:
 
         self.successors_to_wait_for = {}
         self.successors = {}
+        self.lazy_cutoffs = {}
         self.triggering_ancestors = {}
         self.triggers = {}
         self.output_to_push = {}
